@@ -3,6 +3,7 @@ import ConfModel.Model.TracerSlots
 import ConfModel.Model.Builder
 import ConfModel.Spec.Handoff
 import ConfModel.Spec.HandoffGlue
+import ConfModel.Model.H2Teardown
 namespace ConfModel.Driver.C16
 open Lean ConfModel.Driver ConfModel ConfModel.Handoff
 
@@ -255,20 +256,54 @@ def wireClass (ctx : List String) (ops : List WireHandoff.Op) : String :=
     | o :: rest => go (hist ++ [o]) rest
   go [] ops
 
+/-- round-tripper mode: a step is lowered to the operations of the hand-off model it causes —
+reading the response to its end and cancelling the call's context both complete the trace of the
+call (status 200+k) unless it is complete already; a failed round trip has completed it (without
+response) before the script starts.  Result: per step its operations and whether the step has an
+observation of its own. -/
+def lowerRT (ctx : List String) (steps : List String) : Option (List WireHandoff.Op × List (List WireHandoff.Op × Bool)) :=
+  let failed := (ctx.zipIdx.filter (fun p => p.1 == "fail")).map (·.2)
+  let pre : List WireHandoff.Op := failed.map (fun k => .complete k 0)
+  let rec go (completed : List Nat) : List String → Option (List (List WireHandoff.Op × Bool))
+    | [] => some []
+    | st :: rest =>
+      match st.splitOn ":" with
+      | ["c", k] => k.toNat?.bind fun k =>
+        (go (k :: completed) rest).map fun r =>
+          ((if completed.contains k then [] else [WireHandoff.Op.complete k (200 + k)]), false) :: r
+      | ["x", k] => k.toNat?.bind fun k =>
+        (go (k :: completed) rest).map fun r =>
+          (WireHandoff.Op.ctxDone k :: (if completed.contains k then [] else [WireHandoff.Op.complete k (200 + k)]), false) :: r
+      | _ => (parseWireOp st).bind fun o => (go completed rest).map fun r => ([o], true) :: r
+  (go failed steps).map fun l => (pre, l)
+
 def wireVerdict (inp impl : Json) : Verdict :=
   if bool (field impl "setAside") then
     { agree := true, holds := true, nontrivial := false, cls := "set-aside-too-slow" } else
-  match (strList (field inp "steps")).mapM parseWireOp with
+  let ctx := strList (field inp "ctx")
+  let rt := str (field inp "via") == "rt"
+  let lowered : Option (List WireHandoff.Op × List (List WireHandoff.Op × Bool)) :=
+    if rt then lowerRT ctx (strList (field inp "steps"))
+    else ((strList (field inp "steps")).mapM parseWireOp).map fun ops =>
+      -- contexts that are done from the start: context events before everything else
+      ((ctx.zipIdx.filter (fun p => p.1 == "cancelled" || p.1 == "expired")).map (fun p => WireHandoff.Op.ctxDone p.2),
+        ops.map fun o => ([o], match o with | .ctxDone _ | .complete _ _ => false | _ => true))
+  match lowered with
   | none => bad "unparsable wire step"
-  | some ops =>
-    let ctx := strList (field inp "ctx")
+  | some (pre, perStep) =>
     let bare := (ctx.zipIdx.filter (fun p => p.1 == "bare")).map (·.2)
-    -- contexts that are done from the start: context events before everything else
-    let pre : List WireHandoff.Op :=
-      (ctx.zipIdx.filter (fun p => p.1 == "cancelled" || p.1 == "expired")).map (fun p => .ctxDone p.2)
+    let ops := perStep.flatMap (·.1)
     let all := pre ++ ops
-    let model := ((WireHandoff.exec (WireHandoff.init bare) all).2.drop pre.length).map renderWireObs
-    let spec := ((HandoffGlue.specObs bare all).drop pre.length).map renderWireObs
+    let modelAll := ((WireHandoff.exec (WireHandoff.init bare) all).2.drop pre.length).map renderWireObs
+    let specAll := ((HandoffGlue.specObs bare all).drop pre.length).map renderWireObs
+    -- per step: the observation of its own operation, nothing for completions / context events
+    let pick (l : List String) : List String :=
+      (perStep.foldl (fun (acc : List String × Nat) p =>
+        (acc.1 ++ [if p.2 then l.getD acc.2 "?" else ""], acc.2 + p.1.length)) ([], 0)).1
+    let model := pick modelAll
+    let spec := pick specAll
+    -- a second completion for one context would be a panic in the model: never generated
+    let sane := !(modelAll.contains "panic")
     let obs := strList (field impl "obs")
     -- giving up before the grace period is over loses nothing when nothing is ever completed:
     -- that is a disagreement with the model, not a violation
@@ -277,7 +312,7 @@ def wireVerdict (inp impl : Json) : Verdict :=
     -- the Tracer behind the wireTracer gets every completed trace, once
     let names := (List.range ctx.length).map (fun k => s!"call-{k}")
     let slotOps : List TracerSlots.Op := names.map .init ++
-      ops.filterMap (fun o => match o with | .complete k t => some (.complete s!"call-{k}" t) | _ => none)
+      all.filterMap (fun o => match o with | .complete k t => some (.complete s!"call-{k}" t) | _ => none)
     let innerSpec := if bool (field inp "tracer") then
         names.map (fun n => match firstComplete n slotOps with | some t => s!"t{t}" | none => "ctx")
       else []
@@ -287,10 +322,11 @@ def wireVerdict (inp impl : Json) : Verdict :=
       else []
     let inner := strList (field impl "inner")
     let holds := holdsObs && inner == innerSpec
+    if !sane then bad "wire script completes one context twice" else
     { agree := obs == model && model == spec && inner == innerModel, holds := holds,
       nontrivial := ops.any (fun o => match o with | .begin _ => true | _ => false) &&
-        ops.any (fun o => match o with | .complete _ _ => true | _ => false),
-      model := toJson model, cls := wireClass ctx ops,
+        all.any (fun o => match o with | .complete _ _ => true | _ => false),
+      model := toJson model, cls := (if rt then "rt," else "") ++ wireClass ctx all,
       why := if !holdsObs then "per-call waiter (examineWireDetails): " ++ firstMismatch obs (spec.map (fun x => [x]))
              else if inner != innerSpec then s!"the Tracer behind the wireTracer holds {inner}, the completed traces are {innerSpec}"
              else if model != spec then "driver: model and history specification differ" else "" }
@@ -411,8 +447,9 @@ def finalVerdict (inp impl : Json) : Verdict :=
     let complete := if closer == "respEnd" || closer == "respEndPanic" then
         (atc.map (·.hasResp)).getD false && HandoffGlue.trailersOK declared hdrEnd trailerAt names
       else true
-    -- finding F28: an operation ended early (request side / cancellation) after the response
-    -- started is written to when the handler finishes: only the trailers differ
+    -- finding F28 (repaired in repository commit cdc69f7): an operation ended early (request
+    -- side / cancellation) after the response started was written to when the handler finished:
+    -- only the trailers differ
     let f28 := once && !final && (closer == "reqEndErr" || closer == "cancel") &&
       (atc.map (·.hasResp)).getD false && events == eventsFin &&
       (atc.map (fun a => (a.status, a.header))) == (fin.map (fun a => (a.status, a.header)))
@@ -426,11 +463,101 @@ def finalVerdict (inp impl : Json) : Verdict :=
         (if bool (field impl "gateTimeout") then ",gate-timeout" else ""),
       why :=
         if holds then (if agree then "" else s!"model: at completion {showSnap mAt.head?}, at the end {showSnap mFin.head?}; implementation: {showSnap atc} / {showSnap fin}")
-        else if f28 then s!"F28: the trace handed over when the operation was ended early ({closer}) is written to afterwards: trailers {(atc.map (·.trailer)).getD []} at completion, {(fin.map (·.trailer)).getD []} at the end"
+        else if f28 then s!"finding F28 (fixed in cdc69f7) is back: the trace handed over when the operation was ended early ({closer}) is written to afterwards: trailers {(atc.map (·.trailer)).getD []} at completion, {(fin.map (·.trailer)).getD []} at the end"
         else if !once then s!"{completions} deliveries, events {events}: the operation must hand over exactly one trace, completed by its last event"
         else if !final then s!"the trace handed over is not final: at completion {showSnap atc} events {events}, at the end {showSnap fin} events {eventsFin}"
         else if !waiterOK then s!"waiter ({wantW}): Await returned '{gotW}' with {showSnap wake}, completed was {showSnap atc}, at the end {showSnap fin} (waiter's view {showSnap wfin})"
         else s!"the trace was handed over without the response's trailers: {trailerAt} at completion; announced {declared}, header map at the end {(pairsOf (field impl "headerAtEnd"))}" }
+
+/-! ### exactly-once on a traced HTTP/2 connection under any tear-down, op `teardown` -/
+
+def parseTdStep (s : String) : Option H2Teardown.Step :=
+  match s.splitOn ":" with
+  | ["o", sid, name] => sid.toNat?.map (fun i => .opn i (if name == "-" then "" else name))
+  | ["q", sid] => sid.toNat?.map .reqEnd
+  | ["p", sid] => sid.toNat?.map .respEnd
+  | ["f", sid] => sid.toNat?.map (fun i => .rst i 7 false)
+  | ["k", sid] => sid.toNat?.map (fun i => .rst i 8 false)
+  | ["kc", sid] => sid.toNat?.map (fun i => .rst i 8 true)
+  | ["g", last, code] => match last.toNat?, code.toNat? with
+    | some l, some c => some (.goaway l c)
+    | _, _ => none
+  | ["re"] | ["we"] | ["cl"] | ["ce"] => some .teardown
+  | ["rt"] => some .readTimeout
+  | ["t"] => some .timers
+  | _ => none
+
+def errKind : H2.Err → String
+  | .none => "nil"
+  | .stream _ c => if c == 7 then "refused" else if c == 8 then "cancel" else s!"stream{c}"
+  | .conn c => s!"goaway{c}"
+  | .io _ => "io"
+  | .closed _ => "io"
+
+def renderDelivery (t : H2.Trace) : String :=
+  t.name ++ "#" ++ ((t.req.lookup "id").getD "?") ++ "#" ++ errKind t.err
+
+/-- a retryable GOAWAY cuts off two streams of one test name: which of the two traces stays
+held back depends on the iteration order of a Go map — the model fixes one order -/
+def orderDependent : H2Teardown.Conn → List H2Teardown.Step → Bool
+  | _, [] => false
+  | c, st :: rest =>
+    (match st with
+      | .goaway last code =>
+        let names := ((c.streams.filter (·.1 > last)).map (·.2)).filter (· != "")
+        (H2.Err.conn code).retryable && names.eraseDups.length != names.length
+      | _ => false) || orderDependent (H2Teardown.lower c st).1 rest
+
+def teardownVerdict (inp impl : Json) : Verdict :=
+  if bool (field impl "slow") then
+    { agree := true, holds := true, nontrivial := false, cls := "set-aside-too-slow" } else
+  match (strList (field inp "steps")).mapM parseTdStep with
+  | none => bad "unparsable teardown step"
+  | some steps =>
+    let got : List (String × String × String) := (arr (field impl "deliveries")).map fun d =>
+      match strList d with
+      | [n, i, e] => (n, i, e)
+      | _ => ("?", "?", "?")
+    let gotR := sortStrings (got.map fun (n, i, e) => n ++ "#" ++ i ++ "#" ++ e)
+    let model := sortStrings ((H2Teardown.deliveries steps).map renderDelivery)
+    -- the streams the script opens: (id, name)
+    let opened : List (Nat × String) := steps.filterMap fun st => match st with
+      | .opn sid name => some (sid, name) | _ => none
+    let ops := got.map fun (n, i, _) => (n, i)
+    -- (a) exactly once: no operation is handed to the collector twice
+    let dup := ops.find? (fun o => ops.count o > 1)
+    -- (b) what is delivered is the trace of a named stream of this connection
+    let alien := ops.find? (fun (n, i) => n == "" || !(opened.any fun (sid, name) => toString sid == i && name == n))
+    -- (c) after a tear-down nothing is lost: a named stream whose test name occurs once on the
+    -- connection, opened before any GOAWAY and before the last tear-down, is delivered
+    let lastTd := (steps.zipIdx.filter (fun p => p.1 == .teardown)).getLast?.map (·.2)
+    let firstGa := (steps.zipIdx.find? (fun p => match p.1 with | .goaway _ _ => true | _ => false)).map (·.2)
+    let lost := steps.zipIdx.find? fun (st, idx) => match st with
+      | .opn sid name =>
+        name != "" && (opened.filter (·.2 == name)).length == 1 && (opened.filter (·.1 == sid)).length == 1 &&
+        (match lastTd with | some l => idx < l | none => false) &&
+        (match firstGa with | some g => idx < g | none => true) &&
+        !(ops.contains (name, toString sid))
+      | _ => false
+    let holds := dup.isNone && alien.isNone && lost.isNone
+    let nTd := (steps.filter (· == .teardown)).length
+    let heldAtTd : Bool :=
+      match steps.zipIdx.find? (fun p => p.1 == .teardown) with
+      | some (_, idx) => !(H2.Coll.init.run (H2Teardown.lowerAll H2Teardown.Conn.init (steps.take idx))).waiting.isEmpty
+      | none => false
+    let ambiguous := orderDependent H2Teardown.Conn.init steps
+    { agree := gotR == model || (ambiguous && holds), holds := holds,
+      nontrivial := nTd > 0 && !opened.isEmpty && !ambiguous,
+      model := toJson model,
+      cls := s!"teardowns={min nTd 3}" ++ (if heldAtTd == true then ",held-back-at-tear-down" else "") ++
+        (if steps.contains .timers then ",timer" else "") ++ (if ambiguous then ",map-order-dependent" else ""),
+      why := match dup with
+        | some (n, i) => s!"the trace of one HTTP operation (test {n}, stream {i}) was handed to the collector {ops.count (n, i)} times: {gotR}"
+        | none => match alien with
+          | some (n, i) => s!"a trace that belongs to no named stream of the connection was delivered: test '{n}' stream {i}"
+          | none => match lost with
+            | some (st, _) => s!"after the connection was torn down the trace of {repr st} was never delivered: {gotR}"
+            | none => if gotR == model then "" else s!"collector got {gotR}, model {model}" }
 
 def handle : Handler := fun op inp impl =>
   if !(isNull (field impl "panic")) then
@@ -469,6 +596,7 @@ def handle : Handler := fun op inp impl =>
   | "results" => resultsVerdict inp impl
   | "wire" => wireVerdict inp impl
   | "final" => finalVerdict inp impl
+  | "teardown" => teardownVerdict inp impl
   | "cancelrt" => cancelVerdict impl false
   | "cancelhandler" => cancelVerdict impl true
   | "builder" =>
